@@ -118,7 +118,7 @@ Log(k, r) == rets' = [rets EXCEPT ![k] = Append(@, [i |-> pc[k], op |-> CurOp(k)
 \* a pending signal is taken: signal-delivery-stop (a vfork parent sleeps uninterruptibly)
 InVforkWait(k) == sub[k] = "sp" /\ CurOp(k).k = "V" /\ ts[CurOp(k).n] \in {"stop", "held", "run"}
 K_Deliver(k) ==
-  /\ Runs(k) /\ ~InVforkWait(k)
+  /\ Runs(k) /\ ~InVforkWait(k) /\ sub[k] # "ex"
   /\ \E s \in pend[k] \cup (IF nchld[k] > 0 THEN {SIGCHLD} ELSE {}) :
        /\ pend' = [pend EXCEPT ![k] = @ \ {s}]
        /\ nchld' = IF s = SIGCHLD THEN [nchld EXCEPT ![k] = @ - 1] ELSE nchld
@@ -128,7 +128,7 @@ K_Deliver(k) ==
 
 \* a thread takes part in a group stop started by a sibling
 K_GroupStop(k) ==
-  /\ Runs(k) /\ gtok[k] > 0 /\ ~InVforkWait(k)
+  /\ Runs(k) /\ gtok[k] > 0 /\ ~InVforkWait(k) /\ sub[k] # "ex"
   /\ gtok' = [gtok EXCEPT ![k] = @ - 1]
   /\ ts' = [ts EXCEPT ![k] = "stop"]
   /\ ev' = [ev EXCEPT ![k] = Ev("grp", SIGSTOP)]
@@ -207,7 +207,7 @@ K_SpawnRet(k) ==
 
 \* W: wait4 of a traced child returns once the tracer has reaped it; a thread is joined through
 \* its cleared-tid futex, i.e. as soon as it is dead
-Gone(j) == IF knd[j] = "C" THEN ts[j] \in {"zombie", "dead"} ELSE ts[j] = "dead"
+Gone(j) == IF knd[j] = "C" THEN ts[j] \in {"zombie", "dead"} \/ sub[j] = "ex" ELSE ts[j] = "dead"
 K_Wait(k) ==
   /\ Ready(k) /\ sub[k] = "" /\ CurOp(k).k = "W"
   /\ \A j \in Created(k) : Gone(j)
@@ -229,11 +229,16 @@ K_ExitGroup(k) ==
   /\ Die(Group(k), Ev("exit", CurOp(k).n))
   /\ nchld' = ChldTo(k) /\ UNCHANGED pend
   /\ UNCHANGED <<pc, sub, gtok, regs, opts, scnt, lph, esc, cvars, tvars, executed, uexec, trapped>>
+\* exit of one thread: its cleared-tid futex wakes a joiner before the task is a zombie
 K_ExitThread(k) ==
   /\ Ready(k) /\ sub[k] = "" /\ CurOp(k).k = "E"
   /\ Log(k, 0)
+  /\ sub' = [sub EXCEPT ![k] = "ex"]
+  /\ UNCHANGED <<ts, ev, pc, pend, nchld, gtok, regs, opts, scnt, lph, esc, cvars, tvars, executed, uexec, trapped>>
+K_ExitThreadDone(k) ==
+  /\ Runs(k) /\ sub[k] = "ex"
   /\ Die({k}, Ev("exit", 0))
-  /\ UNCHANGED <<pc, sub, pend, nchld, gtok, regs, opts, scnt, lph, esc, cvars, tvars, executed, uexec, trapped>>
+  /\ UNCHANGED <<pc, sub, pend, nchld, gtok, regs, opts, scnt, lph, esc, cvars, tvars, ovars>>
 \* SECCOMP_RET_KILL_PROCESS
 K_FilterKill(k) ==
   /\ Ready(k) /\ sub[k] = "" /\ CurOp(k).k = "K"
@@ -244,9 +249,12 @@ K_FilterKill(k) ==
 K_Kill(k) ==
   /\ Ready(k) /\ sub[k] = "" /\ CurOp(k).k = "J"
   /\ LET j == CurOp(k).n IN
-       /\ Die(Group(j), Ev("killed", SIGKILL))
-       /\ nchld' = IF \E i \in Group(j) : Alive(i) THEN ChldTo(j) ELSE nchld
-  /\ Log(k, 0) /\ pc' = [pc EXCEPT ![k] = @ + 1]
+       IF ts[j] = "dead"          \* already reaped: the pid is gone, ESRCH
+         THEN Log(k, -3) /\ UNCHANGED <<ts, ev, nchld>>
+         ELSE /\ Die(Group(j), Ev("killed", SIGKILL))
+              /\ nchld' = IF \E i \in Group(j) : Alive(i) THEN ChldTo(j) ELSE nchld
+              /\ Log(k, 0)
+  /\ pc' = [pc EXCEPT ![k] = @ + 1]
   /\ UNCHANGED <<sub, pend, gtok, regs, opts, scnt, lph, esc, cvars, tvars, executed, uexec, trapped>>
 \* C15: setsid(): the task leaves the process group the tracer waits on
 K_Setsid(k) ==
@@ -259,7 +267,7 @@ KStep(k) ==
   \/ K_Deliver(k) \/ K_GroupStop(k)
   \/ K_SysEnter(k) \/ K_SysExit(k) \/ K_Untraced(k) \/ K_SigQueue(k) \/ K_SigDone(k)
   \/ K_Spawn(k) \/ K_SpawnRet(k) \/ K_Wait(k)
-  \/ K_ExitGroup(k) \/ K_ExitThread(k) \/ K_FilterKill(k) \/ K_Kill(k) \/ K_Setsid(k)
+  \/ K_ExitGroup(k) \/ K_ExitThread(k) \/ K_ExitThreadDone(k) \/ K_FilterKill(k) \/ K_Kill(k) \/ K_Setsid(k)
 KNext == K_Raise \/ K_Exec \/ \E k \in Tasks : KStep(k)
 
 (* ------------------------------------------------------------------ kernel: effect of PtraceCont *)
